@@ -7,6 +7,7 @@ import (
 	"path/filepath"
 	"sort"
 	"strings"
+	"sync"
 
 	"github.com/ProtonMail/gluon/imap"
 
@@ -146,7 +147,12 @@ func c07Run(sc *core.Scenario, keepLog bool, p *c07Pass) *core.Result {
 		var img *world.Image
 		var tornID string
 		fired := false
+		// (store writes of one batch run on several goroutines: the step counter, the list
+		// of boundaries and the statistics are shared between them)
+		var bmu sync.Mutex
 		boundary := func(name string) error {
+			bmu.Lock()
+			defer bmu.Unlock()
 			if !armed {
 				return nil
 			}
@@ -183,6 +189,8 @@ func c07Run(sc *core.Scenario, keepLog bool, p *c07Pass) *core.Result {
 			}
 			if op == "set" {
 				// a second boundary: the file is being written when the process dies
+				bmu.Lock()
+				defer bmu.Unlock()
 				k := count
 				count++
 				if p.mode == "record" {
